@@ -12,8 +12,12 @@
 //!   cli.<u|ss|cs|bi|U|SS|CS|BI> <snd calls> <acc calls> UE n hv* UA n hv* Q k reqmsg E n hv* HS <none|code> F n (flag pc msg)* TS <none|code>
 //!   pair.<shape> <route> <cli snd> <cli acc> <srv acc> <srv snd> K k H <reply|fail> n dis Q reqmsg R rmsg
 //!     (the client's transport *is* a real `server::Grpc`; both directions are recorded on the way)
+//!   clih.<shape> <http status> <rest of a cli case>   the scripted response has that HTTP status
+//!   x.<knobs> <any of the above>   dimensions that must be invisible, see c05_x.rs
 //! calls: string over g,d,z (enable gzip/deflate/zstd) and p (pop; route c only), `-` = none.
 use crate::common::*;
+#[path = "c05_x.rs"]
+mod x;
 use bytes::{Buf, BufMut, Bytes};
 use http_body_util::BodyExt;
 use std::future::Future;
@@ -40,6 +44,9 @@ impl Encoder for RawEnc {
         dst.put_slice(&item);
         Ok(())
     }
+    fn buffer_settings(&self) -> tonic::codec::BufferSettings {
+        x::buffer_settings()
+    }
 }
 impl Decoder for RawDec {
     type Item = Vec<u8>;
@@ -47,6 +54,9 @@ impl Decoder for RawDec {
     fn decode(&mut self, src: &mut DecodeBuf<'_>) -> Result<Option<Vec<u8>>, Status> {
         let n = src.remaining();
         Ok(Some(src.copy_to_bytes(n).to_vec()))
+    }
+    fn buffer_settings(&self) -> tonic::codec::BufferSettings {
+        x::buffer_settings()
     }
 }
 impl Codec for RawCodec {
@@ -289,7 +299,7 @@ impl Script {
 }
 
 type BoxFut<T> = Pin<Box<dyn Future<Output = T> + Send>>;
-type MsgStream = tokio_stream::Iter<std::vec::IntoIter<Result<Vec<u8>, Status>>>;
+type MsgStream = x::Items<Result<Vec<u8>, Status>>;
 
 struct UnarySvc(Script);
 impl tower_service::Service<Request<Vec<u8>>> for UnarySvc {
@@ -323,7 +333,7 @@ impl tower_service::Service<Request<Vec<u8>>> for SStreamSvc {
             s.rec.lock().unwrap().called = true;
             s.saw_msg(0, req.get_ref());
             let items: Vec<Result<Vec<u8>, Status>> = (0..s.n).map(|_| Ok((*s.rmsg).clone())).collect();
-            s.finish(tokio_stream::iter(items))
+            s.finish(x::items(items))
         })
     }
 }
@@ -377,7 +387,7 @@ impl tower_service::Service<Request<Streaming<Vec<u8>>>> for BidiSvc {
             s.rec.lock().unwrap().called = true;
             read_all(&s, req.into_inner()).await?;
             let items: Vec<Result<Vec<u8>, Status>> = (0..s.n).map(|_| Ok((*s.rmsg).clone())).collect();
-            s.finish(tokio_stream::iter(items))
+            s.finish(x::items(items))
         })
     }
 }
@@ -401,7 +411,7 @@ fn enc_letters(h: &http::HeaderMap) -> String {
 }
 
 fn build_server(route: &str, acc: &str, snd: &str) -> Option<tonic::server::Grpc<RawCodec>> {
-    let mut grpc = tonic::server::Grpc::new(RawCodec);
+    let mut grpc = x::server_limits(tonic::server::Grpc::new(RawCodec), true);
     match route.to_ascii_lowercase().as_str() {
         "d" => {
             for ch in acc.chars().filter(|c| *c != '-') {
@@ -416,7 +426,7 @@ fn build_server(route: &str, acc: &str, snd: &str) -> Option<tonic::server::Grpc
         }
         _ => return None,
     }
-    Some(grpc)
+    Some(x::server_limits(grpc, false))
 }
 
 /// Run one call through the real `server::Grpc` and read its response to the end.
@@ -440,14 +450,26 @@ where
     let mut data = Vec::new();
     let mut trailers: Option<http::HeaderMap> = None;
     let mut after_trailers = false;
-    while let Some(fr) = body.frame().await {
+    loop {
+        // the body's optional hints must be honest: nothing follows `is_end_stream() == true`,
+        // no DATA frame exceeds the announced upper bound
+        let ended = http_body::Body::is_end_stream(&body);
+        let upper = http_body::Body::size_hint(&body).upper();
+        let Some(fr) = body.frame().await else { break };
+        if ended {
+            after_trailers = true;
+        }
         match fr {
             Ok(f) => {
                 if f.is_data() {
                     if trailers.is_some() {
                         after_trailers = true;
                     }
-                    data.extend_from_slice(&f.into_data().unwrap());
+                    let d = f.into_data().unwrap();
+                    if upper.is_some_and(|u| (d.len() as u64) > u) {
+                        after_trailers = true;
+                    }
+                    data.extend_from_slice(&d);
                 } else if let Ok(t) = f.into_trailers() {
                     trailers = Some(t);
                 }
@@ -527,12 +549,21 @@ fn run_srv(shape: &str, c: &mut Cur<'_>) -> Option<String> {
     for (flag, pc, msg) in &frames {
         body.extend_from_slice(&wire_frame(*flag, &compress_with(*pc, msg)));
     }
+    let kn = x::knobs();
     let mut req = http::Request::builder()
         .method("POST")
         .uri("http://h/svc/M")
-        .version(http::Version::HTTP_2)
-        .header("content-type", "application/grpc")
-        .header("te", "trailers");
+        .version(if kn.xh & 16 != 0 { http::Version::HTTP_11 } else { http::Version::HTTP_2 })
+        .header("content-type", if kn.xh & 8 != 0 { "application/grpc+proto" } else { "application/grpc" });
+    if kn.xh & 4 == 0 {
+        req = req.header("te", "trailers");
+    }
+    if kn.xh & 1 != 0 {
+        req = req.header("accept-encoding", "gzip, deflate, zstd");
+    }
+    if kn.xh & 2 != 0 {
+        req = req.header("content-encoding", "gzip");
+    }
     for v in &enc_vals {
         match http::HeaderValue::from_bytes(v) {
             Ok(hv) => req = req.header("grpc-encoding", hv),
@@ -545,7 +576,20 @@ fn run_srv(shape: &str, c: &mut Cur<'_>) -> Option<String> {
             Err(_) => return Some("not-a-header-value".into()),
         }
     }
-    let req = req.body(http_body_util::Full::new(Bytes::from(body))).ok()?;
+    type ReqBody = http_body_util::Either<http_body_util::Full<Bytes>, x::ChunkBody>;
+    let req: http::Request<ReqBody> = if kn.cut == 0 && kn.xh & 32 == 0 {
+        req.body(http_body_util::Either::Left(http_body_util::Full::new(Bytes::from(body)))).ok()?
+    } else {
+        let trailers = if kn.xh & 32 != 0 {
+            let mut t = http::HeaderMap::new();
+            t.insert("grpc-encoding", http::HeaderValue::from_static("gzip"));
+            t.insert("grpc-accept-encoding", http::HeaderValue::from_static("gzip,deflate,zstd"));
+            Some(t)
+        } else {
+            None
+        };
+        req.body(http_body_util::Either::Right(x::ChunkBody { chunks: x::split(kn.cut, &body).into(), trailers })).ok()?
+    };
 
     let rec = Arc::new(Mutex::new(Rec::default()));
     let script = Script {
@@ -589,6 +633,30 @@ fn run_srv(shape: &str, c: &mut Cur<'_>) -> Option<String> {
                     }
                 }
             }
+            if kn.wr != 0 {
+                // server history: the same `Grpc` value first serves a call that is refused /
+                // offers nothing / fails in the handler
+                let prime = Script {
+                    rec: Arc::new(Mutex::new(Rec::default())),
+                    reqmsgs: Arc::new(vec![b"prime".to_vec()]),
+                    reply: kn.wr != 3,
+                    n: 5,
+                    disable: false,
+                    md: Arc::new(vec![]),
+                    rmsg: Arc::new(b"primed primed primed".to_vec()),
+                };
+                let mut preq = http::Request::builder().method("POST").uri("http://h/svc/M").version(http::Version::HTTP_2).header("content-type", "application/grpc");
+                if kn.wr == 1 {
+                    preq = preq.header("grpc-encoding", "br");
+                }
+                let preq = preq.body(http_body_util::Full::new(Bytes::from(wire_frame(0, b"prime")))).unwrap();
+                let (_, mut b) = grpc.unary(UnarySvc(prime), preq).await.into_parts();
+                while let Some(fr) = b.frame().await {
+                    if fr.is_err() {
+                        break;
+                    }
+                }
+            }
             serve_shape(&mut grpc, shape, script, req).await
         })
     });
@@ -614,6 +682,37 @@ struct Transport {
     hdr_status: Option<i32>,
     body: Arc<Vec<u8>>,
     trl_status: Option<i32>,
+    /// non-zero: the next call is answered with the peer-feedback profile of that number (knob `wr`)
+    warm: Arc<Mutex<u32>>,
+}
+
+/// the peer's answer to a history call (knob `wr`): what it says about its own abilities must
+/// not change what the client sends or advertises afterwards
+fn feedback_response(profile: u32) -> http::Response<RespBody> {
+    let mut frames: Vec<Result<http_body::Frame<Bytes>, Status>> = Vec::new();
+    let mut resp = http::Response::builder().version(http::Version::HTTP_2);
+    match profile {
+        1 => {
+            resp = resp.status(200).header("content-type", "application/grpc").header("grpc-status", "12").header("grpc-message", "p").header("grpc-accept-encoding", "identity");
+        }
+        2 | 3 => {
+            resp = resp.status(200).header("content-type", "application/grpc");
+            if profile == 2 {
+                resp = resp.header("grpc-accept-encoding", "identity");
+                frames.push(Ok(http_body::Frame::data(Bytes::from(wire_frame(0, b"\0fb")))));
+            } else {
+                resp = resp.header("grpc-accept-encoding", "gzip,deflate,zstd").header("grpc-encoding", "zstd");
+                frames.push(Ok(http_body::Frame::data(Bytes::from(wire_frame(1, &compress_with('z', b"\0fb"))))));
+            }
+            let mut h = http::HeaderMap::new();
+            h.insert("grpc-status", http::HeaderValue::from_static("0"));
+            frames.push(Ok(http_body::Frame::trailers(h)));
+        }
+        _ => {
+            resp = resp.status(415).header("content-type", "text/plain");
+        }
+    }
+    resp.body(http_body_util::StreamBody::new(tokio_stream::iter(frames))).unwrap()
 }
 
 impl tower_service::Service<http::Request<tonic::body::Body>> for Transport {
@@ -642,8 +741,17 @@ impl tower_service::Service<http::Request<tonic::body::Body>> for Transport {
                 c.headers = parts.headers;
                 c.body = data;
             }
+            let profile = std::mem::take(&mut *t.warm.lock().unwrap());
+            if profile != 0 {
+                return Ok(feedback_response(profile));
+            }
+            let kn = x::knobs();
             let mut frames: Vec<Result<http_body::Frame<Bytes>, Status>> = Vec::new();
-            if !t.body.is_empty() {
+            if kn.cut != 0 {
+                for c in x::split(kn.cut, &t.body) {
+                    frames.push(Ok(http_body::Frame::data(c)));
+                }
+            } else if !t.body.is_empty() {
                 frames.push(Ok(http_body::Frame::data(Bytes::from((*t.body).clone()))));
             }
             if let Some(code) = t.trl_status {
@@ -652,9 +760,21 @@ impl tower_service::Service<http::Request<tonic::body::Body>> for Transport {
                 if code != 0 {
                     h.insert("grpc-message", http::HeaderValue::from_static("p"));
                 }
+                if kn.xh & 32 != 0 {
+                    h.insert("grpc-encoding", http::HeaderValue::from_static("zstd"));
+                }
                 frames.push(Ok(http_body::Frame::trailers(h)));
             }
-            let mut resp = http::Response::builder().status(200).version(http::Version::HTTP_2).header("content-type", "application/grpc");
+            let mut resp = http::Response::builder()
+                .status(x::http_status())
+                .version(http::Version::HTTP_2)
+                .header("content-type", if kn.xh & 8 != 0 { "application/grpc+proto" } else { "application/grpc" });
+            if kn.xh & 1 != 0 {
+                resp = resp.header("accept-encoding", "gzip, deflate, zstd");
+            }
+            if kn.xh & 2 != 0 {
+                resp = resp.header("content-encoding", "gzip");
+            }
             for v in t.enc_vals.iter() {
                 resp = resp.header("grpc-encoding", http::HeaderValue::from_bytes(v).unwrap());
             }
@@ -762,7 +882,7 @@ where
                 }
                 "cs" => {
                     let msgs: Vec<Vec<u8>> = (0..k).map(|_| reqmsg.to_vec()).collect();
-                    let r = with_md(Request::new(tokio_stream::iter(msgs)), umd_enc, umd_acc)?;
+                    let r = with_md(Request::new(x::items(msgs)), umd_enc, umd_acc)?;
                     match grpc.client_streaming(r, path, RawCodec).await {
                         Ok(resp) => items.push(item_ok(0, resp.get_ref())),
                         Err(e) => {
@@ -778,7 +898,7 @@ where
                 }
                 _ => {
                     let msgs: Vec<Vec<u8>> = (0..k).map(|_| reqmsg.to_vec()).collect();
-                    let r = with_md(Request::new(tokio_stream::iter(msgs)), umd_enc, umd_acc)?;
+                    let r = with_md(Request::new(x::items(msgs)), umd_enc, umd_acc)?;
                     let res = grpc.streaming(r, path, RawCodec).await;
                     drain(res, &mut items, &mut errs, &item_ok, &eacc).await;
                 }
@@ -818,14 +938,15 @@ fn cli_tokens(req_headers: &http::HeaderMap, req_body: &[u8], reqmsg: &[u8], ite
     )
 }
 
-fn configure_client<T>(mut grpc: tonic::client::Grpc<T>, snd: &str, acc: &str) -> Option<tonic::client::Grpc<T>> {
+fn configure_client<T>(grpc: tonic::client::Grpc<T>, snd: &str, acc: &str) -> Option<tonic::client::Grpc<T>> {
+    let mut grpc = x::client_limits(grpc, true);
     for ch in snd.chars().filter(|c| *c != '-') {
         grpc = grpc.send_compressed(enc_of(ch)?);
     }
     for ch in acc.chars().filter(|c| *c != '-') {
         grpc = grpc.accept_compressed(enc_of(ch)?);
     }
-    Some(grpc)
+    Some(x::client_limits(grpc, false))
 }
 
 fn run_cli(shape: &str, c: &mut Cur<'_>) -> Option<String> {
@@ -851,7 +972,8 @@ fn run_cli(shape: &str, c: &mut Cur<'_>) -> Option<String> {
         body.extend_from_slice(&wire_frame(*flag, &compress_with(*pc, msg)));
     }
     let cap = Arc::new(Mutex::new(Captured::default()));
-    let transport = Transport { cap: cap.clone(), enc_vals: Arc::new(enc_vals), hdr_status, body: Arc::new(body), trl_status };
+    let warm_profile = Arc::new(Mutex::new(0u32));
+    let transport = Transport { cap: cap.clone(), enc_vals: Arc::new(enc_vals), hdr_status, body: Arc::new(body), trl_status, warm: warm_profile.clone() };
     // shape prefix `w` / `W`: the client has already been USED before it gets (the rest of) its
     // configuration — a warm-up call is made after the first configuration call, then the
     // remaining calls are applied.  What a client sends and advertises must depend only on its
@@ -862,7 +984,7 @@ fn run_cli(shape: &str, c: &mut Cur<'_>) -> Option<String> {
     };
     let shape = shape.as_str();
     let grpc = if warm {
-        let mut g = tonic::client::Grpc::new(transport);
+        let mut g = x::new_client(transport);
         let calls: Vec<(bool, char)> = snd.chars().filter(|c| *c != '-').map(|c| (true, c)).chain(acc.chars().filter(|c| *c != '-').map(|c| (false, c))).collect();
         let split = if calls.is_empty() { 0 } else { 1 };
         for (is_snd, ch) in &calls[..split] {
@@ -883,7 +1005,42 @@ fn run_cli(shape: &str, c: &mut Cur<'_>) -> Option<String> {
         *cap.lock().unwrap() = Captured::default();
         g2
     } else {
-        configure_client(tonic::client::Grpc::new(transport), snd, acc)?
+        configure_client(x::new_client(transport), snd, acc)?
+    };
+    let kn = x::knobs();
+    let side_call = |g: &mut tonic::client::Grpc<Transport>| {
+        RT.with(|rt| {
+            rt.block_on(async {
+                if g.ready().await.is_ok() {
+                    let _ = g.unary(Request::new(b"\0side".to_vec()), http::uri::PathAndQuery::from_static("/svc/Other"), RawCodec).await;
+                }
+            })
+        });
+    };
+    let mut grpc = grpc;
+    if kn.wr != 0 {
+        // history with peer feedback: the fully configured client first makes a call that the
+        // peer answers by telling what it accepts / by an error
+        *warm_profile.lock().unwrap() = kn.wr;
+        side_call(&mut grpc);
+        *cap.lock().unwrap() = Captured::default();
+    }
+    let grpc = match kn.cl {
+        1 => {
+            let a = grpc.clone();
+            let b = a.clone();
+            drop(grpc);
+            drop(a);
+            b
+        }
+        2 => {
+            let mut c = grpc.clone();
+            side_call(&mut c);
+            drop(c);
+            *cap.lock().unwrap() = Captured::default();
+            grpc
+        }
+        _ => grpc,
     };
     let refs: Vec<Vec<u8>> = frames.iter().map(|f| f.2.clone()).collect();
     let (items, errs) = match drive_client(grpc, shape, k, &reqmsg, &umd_enc, &umd_acc, &refs) {
@@ -1001,7 +1158,7 @@ fn run_pair(shape: &str, c: &mut Cur<'_>) -> Option<String> {
     };
     let wire = Arc::new(Mutex::new(Wire::default()));
     let transport = ServerTransport { shape: shape.to_string(), route: route.to_string(), sacc: sacc.to_string(), ssnd: ssnd.to_string(), script, wire: wire.clone() };
-    let grpc = configure_client(tonic::client::Grpc::new(transport), csnd, cacc)?;
+    let grpc = configure_client(x::new_client(transport), csnd, cacc)?;
     let refs: Vec<Vec<u8>> = (0..n.max(1)).map(|_| rmsg.clone()).collect();
     let (items, errs) = drive_client(grpc, shape, k, &reqmsg, &[], &[], &refs)?;
     let w = wire.lock().unwrap();
@@ -1061,9 +1218,10 @@ fn hv(h: &http::HeaderMap, n: &str) -> String {
     }
 }
 
-impl<S> tower::Service<http::Request<tonic::body::Body>> for RecTransport<S>
+impl<S, RB> tower::Service<http::Request<tonic::body::Body>> for RecTransport<S>
 where
-    S: tower::Service<http::Request<tonic::body::Body>, Response = http::Response<tonic::body::Body>> + Clone + Send + 'static,
+    S: tower::Service<http::Request<tonic::body::Body>, Response = http::Response<RB>> + Clone + Send + 'static,
+    RB: http_body::Body<Data = Bytes> + Send + 'static,
     S::Future: Send,
     S::Error: Send,
 {
@@ -1128,46 +1286,92 @@ fn run_gen(j: &str, c: &mut Cur<'_>) -> Option<String> {
     for ch in ssnd.chars().filter(|c| *c != '-') {
         srv = srv.send_compressed(enc_of(ch)?);
     }
+    let kn = x::knobs();
+    if kn.ms != 0 {
+        srv = srv.max_decoding_message_size(x::LIMIT).max_encoding_message_size(x::LIMIT);
+    }
     let wire = Arc::new(Mutex::new(GenWire::default()));
-    let mut cli = pool::p0::s_client::SClient::new(RecTransport { inner: srv, wire: wire.clone() });
-    for ch in csnd.chars().filter(|c| *c != '-') {
-        cli = cli.send_compressed(enc_of(ch)?);
-    }
-    for ch in cacc.chars().filter(|c| *c != '-') {
-        cli = cli.accept_compressed(enc_of(ch)?);
-    }
     let arg = "x".repeat(n);
-    let out = RT.with(|rt| {
-        rt.block_on(async {
-            let r: Result<usize, Status> = match j {
-                0 => cli.m0(Request::new(arg)).await.map(|_| 1),
-                3 => match cli.m3(Request::new(arg)).await {
-                    Ok(s) => pool::drain(s.into_inner()).await.map(|v| v.len()),
-                    Err(e) => Err(e),
-                },
-                4 => cli.m4(Request::new(tokio_stream::iter(vec![arg.clone(), arg]))).await.map(|_| 1),
-                _ => match cli.m5(Request::new(tokio_stream::iter(vec![arg.clone(), arg]))).await {
-                    Ok(s) => pool::drain(s.into_inner()).await.map(|v| v.len()),
-                    Err(e) => Err(e),
-                },
-            };
-            match r {
-                Ok(_) => "ok".to_string(),
-                Err(st) => format!("err{}", st.code() as i32),
+    macro_rules! configure_and_drive {
+        ($cli:expr) => {{
+            let mut cli = $cli;
+            for ch in csnd.chars().filter(|c| *c != '-') {
+                cli = cli.send_compressed(enc_of(ch)?);
             }
-        })
-    });
+            for ch in cacc.chars().filter(|c| *c != '-') {
+                cli = cli.accept_compressed(enc_of(ch)?);
+            }
+            if kn.ms != 0 {
+                cli = cli.max_decoding_message_size(x::LIMIT).max_encoding_message_size(x::LIMIT);
+            }
+            RT.with(|rt| {
+                rt.block_on(async {
+                    let r: Result<usize, Status> = match j {
+                        0 => cli.m0(Request::new(arg.clone())).await.map(|_| 1),
+                        3 => match cli.m3(Request::new(arg.clone())).await {
+                            Ok(s) => pool::drain(s.into_inner()).await.map(|v| v.len()),
+                            Err(e) => Err(e),
+                        },
+                        4 => cli.m4(Request::new(x::items(vec![arg.clone(), arg.clone()]))).await.map(|_| 1),
+                        _ => match cli.m5(Request::new(x::items(vec![arg.clone(), arg.clone()]))).await {
+                            Ok(s) => pool::drain(s.into_inner()).await.map(|v| v.len()),
+                            Err(e) => Err(e),
+                        },
+                    };
+                    match r {
+                        Ok(_) => "ok".to_string(),
+                        Err(st) => format!("err{}", st.code() as i32),
+                    }
+                })
+            })
+        }};
+    }
+    fn pass(r: Request<()>) -> Result<Request<()>, Status> {
+        Ok(r)
+    }
+    fn tag(mut r: Request<()>) -> Result<Request<()>, Status> {
+        r.metadata_mut().insert("x-ic", tonic::metadata::MetadataValue::from_static("1"));
+        Ok(r)
+    }
+    let out = match kn.ic {
+        0 => configure_and_drive!(pool::p0::s_client::SClient::new(RecTransport { inner: srv, wire: wire.clone() })),
+        ic => {
+            // the interceptor layers of tonic's own stacks on both sides of the recording transport
+            let f: fn(Request<()>) -> Result<Request<()>, Status> = if ic == 1 { pass } else { tag };
+            let isrv = tonic::service::interceptor::InterceptedService::new(srv, f);
+            configure_and_drive!(pool::p0::s_client::SClient::with_interceptor(RecTransport { inner: isrv, wire: wire.clone() }, f))
+        }
+    };
     let w = wire.lock().unwrap();
     Some(format!("qe={} qa={} qf={} re={} rf={} out={}", w.qe, w.qa, w.qf, w.re, w.rf, out))
 }
 
 pub fn execute(case: &str) -> String {
     let mut c = Cur { t: case.split(' ').filter(|s| !s.is_empty()).collect(), i: 0 };
+    // `x.<knobs> <inner case>`: the inner case with dimensions turned that must make no difference
+    x::set(x::Knobs::default());
+    x::set_http_status(200);
+    if c.t.first().is_some_and(|k| k.starts_with("x.")) {
+        match x::parse(c.t[0]) {
+            Some(k) => x::set(k),
+            None => return "bad-case".into(),
+        }
+        c.i = 1;
+    }
     let r = match c.next() {
         Some(k) if k.starts_with("srv.") => run_srv(&k[4..], &mut c),
         Some(k) if k.starts_with("cli.") => run_cli(&k[4..], &mut c),
+        // clih.<shape> <http status> <rest of a cli case>: the scripted response has that HTTP status
+        Some(k) if k.starts_with("clih.") => match c.num() {
+            Some(st) if (100..1000).contains(&st) => {
+                x::set_http_status(st as u16);
+                run_cli(&k[5..], &mut c)
+            }
+            _ => None,
+        },
         Some(k) if k.starts_with("pair.") => run_pair(&k[5..], &mut c),
         Some(k) if k.starts_with("gen.") => run_gen(&k[4..], &mut c),
+        Some(k) if k.starts_with("stk.") => x::run_stk(&k[4..], &mut c),
         _ => None,
     };
     r.unwrap_or_else(|| "bad-case".into())
@@ -1898,6 +2102,9 @@ pub fn generate(tier: &str, rng: &mut Rng) -> Vec<String> {
     for _ in 0..nc {
         out.push(cli_random(rng));
     }
+
+    // ---- dimensions that must be invisible (knobs) and large messages: see c05_x.rs
+    x::generate(tier, rng, &mut out);
 
     // ---- thorough: small-scope exhaustive — every ordered subset for send × every list of ≤ 3
     // tokens over a 6-token alphabet with two separators
